@@ -3,6 +3,7 @@ package modules
 // C01 harnesses: module lifecycle order.
 
 import (
+	"context"
 	"errors"
 
 	rt "github.com/safing/portbase/zz_verifrt"
@@ -102,10 +103,23 @@ var dagShapes = [][][]int{
 
 var modNames = []string{"a", "b", "c"}
 
+// the module (index) whose start routine launches a worker that runs until its
+// context is cancelled; -1: none
+var lcWorkerOn = -1
+
 func lcCallback(i, phase int) func() error {
 	return func() error {
+		if phase == 1 && i == lcWorkerOn {
+			modules[modNames[i]].StartWorker("until-cancelled", func(ctx context.Context) error {
+				<-ctx.Done()
+				return nil
+			})
+		}
 		lcTrace = append(lcTrace, lcEvent{mod: i, phase: phase})
 		rt.Yield() // callbacks of concurrently launched modules overlap in every order
+		if phase == 2 && i == lcWorkerOn {
+			rt.NativePause() // natively: the worker has ended while this stop routine is still busy
+		}
 		outcome := 0
 		if lcFaults > 0 {
 			outcome = rt.Choice("outcome", 3) // 0 ok, 1 error, 2 panic
@@ -133,6 +147,7 @@ func resetModuleSystem() {
 	modulesChangeNotifyFn = nil
 	SetStdErrReporting(false)
 	lcTrace = nil
+	lcWorkerOn = -1
 }
 
 func buildDAG(shape int) []*Module {
@@ -236,6 +251,15 @@ func VerifC01_StartAllThenShutdown() {
 	shape := rt.Choice("shape", nshapes)
 	deps := dagShapes[shape]
 	lcFaults = rt.Choice("faults", 2) // at most one failing callback
+	// one module may run a worker that ends when the module's context is
+	// cancelled, i.e. while its stop routine is still running
+	// (quick tier: the last module of the shape, and only without a failing callback)
+	lcWorkerOn = -1
+	if rt.Thorough() {
+		lcWorkerOn = rt.Choice("worker-on", len(deps)+1) - 1
+	} else if lcFaults == 0 && rt.Bool("worker-on-last") {
+		lcWorkerOn = len(deps) - 1
+	}
 	mods := buildDAG(shape)
 	if err := initDependencies(); err != nil {
 		rt.Assert(false, "lifecycle/init-dependencies")
